@@ -4,6 +4,7 @@
 // must throw std::bad_alloc; allocator equality; is_aligned; get_alignment_offset vs brute force.
 // Heap integrity itself is watched by ASan (leaks on) and valgrind memcheck in the thorough tier.
 #include "../common/vcheck.hpp"
+#include <complex>
 #include <map>
 #include <new>
 using namespace vh;
@@ -378,6 +379,39 @@ static void predicates(uint64_t seed)
     gao(dbuf, "double");
     gao((int16_t*)page, "int16");
     gao((uint8_t*)page, "uint8");
+    // element types whose alignment is smaller than their size (std::complex<float|double>): every pointer that is a valid
+    // T* (a multiple of alignof(T)), including those that are not multiples of sizeof(T) -- then no element can be block
+    // aligned and the answer is size.  (block == 1 is documented as "every element is well aligned" and returns 0
+    // whatever the pointer: not asserted for pointers that are not multiples of sizeof(T).)
+    auto gao_bytes = [&](auto* base, const char* tn)
+    {
+        using T = typename std::remove_pointer<decltype(base)>::type;
+        for (size_t ob = 0; ob < 40 * sizeof(T); ob += alignof(T))
+            for (size_t size = 0; size <= 24; ++size)
+                for (size_t bs : { (size_t)1, (size_t)2, (size_t)4, (size_t)8, (size_t)16 })
+                {
+                    const T* p = reinterpret_cast<const T*>(reinterpret_cast<const unsigned char*>(base) + ob);
+                    if (bs == 1 && (ob % sizeof(T)) != 0)
+                        continue;
+                    size_t got = xsimd::get_alignment_offset(p, size, bs);
+                    size_t exp = size;
+                    for (size_t k = 0; k <= size; ++k)
+                        if (((uintptr_t)(p + k)) % (bs * sizeof(T)) == 0)
+                        {
+                            exp = k;
+                            break;
+                        }
+                    st.evals++;
+                    st.cell((unsigned)(8192 + (ob / alignof(T)) * 32 + size));
+                    if (got != exp)
+                        viol(st, "get_alignment_offset", std::string("{\"type\":\"") + tn + "\",\"byte_offset\":" + std::to_string(ob) + ",\"size\":" + std::to_string(size) + ",\"block\":" + std::to_string(bs) + ",\"got\":" + std::to_string(got) + ",\"exp\":" + std::to_string(exp) + "}");
+                }
+    };
+    gao_bytes((std::complex<float>*)page, "complex<float>");
+    gao_bytes((std::complex<double>*)page, "complex<double>");
+    gao_bytes((long double*)page, "long double");
+    gao_bytes((uint64_t*)page, "uint64");
+    gao_bytes((int32_t*)page, "int32");
     // a pointer that is not even element-aligned: no element is block aligned -> size
     for (size_t size = 0; size <= 8; ++size)
     {
